@@ -49,7 +49,8 @@ NAMED = {
     'non-specific': lambda s, i: True,
     'no-cleave': lambda s, i: False,
 }
-USER_REGEX = ['([KR])', 'K', '(?<=K)', '(?=D)', '(?<=[KR])(?!P)', 'PP', '()', '_', 'K(?=D)', '[KR]P?']
+USER_REGEX = ['([KR])', 'K', '(?<=K)', '(?=D)', '(?<=[KR])(?!P)', 'PP', '()', '_', 'K(?=D)', '[KR]P?',
+              '([KR])|(?=D)', '(?=D)|([KR])', 'K|(?<=D)']   # one regex mixing consuming and zero-width alternatives
 
 
 def ref_sites(s, rule):
@@ -62,7 +63,7 @@ def ref_sites(s, rule):
         m = pat.match(s, i)
         if m is not None:
             out.append(i if m.end() == m.start() else i + 1)
-    return sorted(out)
+    return sorted(set(out))
 
 
 def ref_enzymatic(n, sites, mc, min_len, max_len):
